@@ -9,6 +9,7 @@ import (
 	"fmt"
 	"os"
 	"strings"
+	"unicode/utf8"
 
 	"github.com/grindlemire/go-lucene/internal/lex"
 )
@@ -163,6 +164,7 @@ func cmdLexEnum(args []string) {
 	seed := fs.Int64("seed", 1, "seed")
 	variants := fs.Bool("variants", false, "also record whitespace / keyword-case variants (C09)")
 	observe := fs.Bool("observe", false, "also record the observables of C01")
+	withJSON := fs.Bool("json", false, "only inputs that parse: record the JSON round trip (C12)")
 	fs.Parse(args)
 	var si, sk int
 	fmt.Sscanf(*shard, "%d/%d", &si, &sk)
@@ -179,6 +181,19 @@ func cmdLexEnum(args []string) {
 	run := func(seq []string) {
 		in := newSymInput(append([]string{}, seq...))
 		pr := r.record(id, in.text, "")
+		if *withJSON {
+			if pr.expr == nil || !utf8.ValidString(in.text) {
+				return
+			}
+			prd := r.record(id, in.text, "df")
+			line := map[string]any{"id": id, "q": in.syms, "res": slim(pr), "resdf": slim(prd), "rt": roundTrip(pr.expr)}
+			if prd.expr != nil {
+				line["rtdf"] = roundTrip(prd.expr)
+			}
+			r.write(line)
+			written++
+			return
+		}
 		line := map[string]any{"id": id, "inp": in.syms, "q": in.text, "a": in.schedule(0), "b": in.schedule(1 + id%2),
 			"parse": pr.Outcome}
 		if *observe {
